@@ -72,7 +72,9 @@ fn hashes() -> [[u8; 28]; 3] {
 }
 
 fn pointer_alphabet(thorough: bool) -> Vec<u64> {
-    let mut v: Vec<u64> = vec![0, 1, 127, 128, 16383, 16384, u32::MAX as u64, 1 << 32, 1 << 63, u64::MAX];
+    // the last three sit just below the top of the range, where an accumulator of
+    // exactly 64 bits has to tell "fits" from "overflows" in the final 7-bit group
+    let mut v: Vec<u64> = vec![0, 1, 127, 128, 16383, 16384, u32::MAX as u64, 1 << 32, 1 << 63, u64::MAX, u64::MAX - 1, u64::MAX - 127, u64::MAX - 128];
     if thorough {
         // every varuint length edge 2^(7k) - 1, 2^(7k), 2^(7k) + 1 and the word edges
         for k in 0..=9u32 {
@@ -92,11 +94,15 @@ fn varuint_alphabet() -> Vec<u64> {
     let mut v = vec![];
     for k in 0..=64u32 {
         let p: u128 = 1u128 << k;
-        for x in [p - 1, p, p + 1] {
+        for x in [p.saturating_sub(2), p - 1, p, p + 1, p + 2] {
             if x <= u64::MAX as u128 {
                 v.push(x as u64);
             }
         }
+    }
+    // every value of the top 7-bit group and its neighbours
+    for d in 0..=258u64 {
+        v.push(u64::MAX - d);
     }
     v.sort();
     v.dedup();
